@@ -101,7 +101,7 @@ Proof.
   assert (N0 : g_N g0 = g_N c) by (rewrite Eg0; apply ignore_self_loops_N).
   cbn [fst snd].
   unfold phase1 in H. rewrite N0, L1 in H. cbn [Nat.eqb bind] in H.
-  unfold phase2 in H. rewrite N0, L1 in H. cbn [Nat.eqb bind] in H.
+  unfold phase2, assign_layers in H. rewrite N0, L1 in H. cbn [Nat.eqb bind] in H.
   destruct (init_layer_slices g0) as [g2|] eqn:SL; cbn [bind] in H; [|discriminate].
   destruct (slices_facts g0 g2 SL) as (_ & _ & N2 & _).
   unfold phase3_wmedian in H. rewrite N2, N0, L1 in H. cbn [Nat.eqb bind] in H.
